@@ -37,3 +37,29 @@ def match(pid, case, d, open_known):
         if fn is not None and fn(pid, case, d):
             return e["id"]
     return None
+
+
+# ---------------------------------------------------------------------------------------------
+# matchers for the open findings
+# ---------------------------------------------------------------------------------------------
+import re  # noqa: E402
+
+D8_NAMES = (
+    "elevation_angle_at_nadir_of_antenna",
+    "antenna_squint_angle",
+    "platform_velocity",
+    "platform_acceleration",
+    "platform_attitude",
+)
+D8_WHERE = re.compile(r"^/imagery/[A-Za-z0-9_]+#(" + "|".join(D8_NAMES) + r")$")
+
+
+@matcher("D8")
+def match_d8(pid, case, d):
+    if case.get("level") != "1.1":
+        return False
+    if not D8_WHERE.match(d["where"]):
+        return False
+    if pid == "C12":
+        return d["kind"] == "dtype-opaque" and "object" in d["observed"]
+    return d["kind"] in ("d8-object-array",)
